@@ -5,6 +5,9 @@ import (
 	"fmt"
 	"strings"
 	"sync"
+	"time"
+
+	"google.golang.org/protobuf/proto"
 
 	sm "github.com/smart-core-os/sc-golang/internal/verif/seqmodel"
 	"github.com/smart-core-os/sc-golang/internal/verif/vk"
@@ -406,4 +409,156 @@ func joinAfterUnpublishedCommits(r *vk.Run) {
 		}
 	}
 	r.Require("join-after-unpublished-commits-scenarios", 2)
+}
+
+type rawEv struct {
+	Typ        string
+	ID         string
+	Old, New   string
+	Time       int64
+	Seed, Last bool
+}
+
+func (e rawEv) String() string {
+	s := fmt.Sprintf("%s %s old=%s new=%s t=%d", e.Typ, e.ID, e.Old, e.New, e.Time)
+	if e.Seed {
+		s += " seed"
+	}
+	if e.Last {
+		s += " last-seed"
+	}
+	return s
+}
+
+func rawOf(c *resource.CollectionChange) rawEv {
+	j := func(m proto.Message) string {
+		if m == nil || !m.ProtoReflect().IsValid() {
+			return "-"
+		}
+		return vk.JSON(m)
+	}
+	return rawEv{Typ: c.ChangeType.String(), ID: c.Id, Old: j(c.OldValue), New: j(c.NewValue), Time: c.ChangeTime.Unix(), Seed: c.SeedValue, Last: c.LastSeedValue}
+}
+
+func renderRaw(es []rawEv) string {
+	var ss []string
+	for _, e := range es {
+		ss = append(ss, "    "+e.String())
+	}
+	return strings.Join(ss, "\n")
+}
+
+// pausedReader: a backpressured collection subscriber (seeded or updates-only) stops receiving for a while - after k
+// of its seeds, or right away - while one writer performs a fixed script, one write at a time, every write with its
+// own write time (one of them writes back an equal value with a later time). With backpressure nothing may be dropped
+// or merged however long the reader pauses: once it receives again it gets the remaining seeds exactly as they were
+// stored when it subscribed (value and change time), then exactly one event per write, in write order, each with its
+// kind, old value, new value and write time.
+func pausedReader(r *vk.Run) {
+	at := func(n int64) time.Time { return time.Unix(1000*n, 0) }
+	idx := 0
+	for _, uo := range []bool{false, true} {
+		for taken := 0; taken <= 3; taken++ {
+			if uo && taken > 0 {
+				continue
+			}
+			idx++
+			if !r.Mine(idx) {
+				continue
+			}
+			col := resource.NewCollection()
+			for _, id := range []string{"a", "b", "c", "d"} {
+				col.Add(id, val(1, id+"0"), resource.WithWriteTime(at(1)))
+			}
+			ctx, cancel := context.WithCancel(context.Background())
+			ch := col.Pull(ctx, resource.WithBackpressure(true), resource.WithUpdatesOnly(uo))
+			var got []rawEv
+			for k := 0; k < taken; k++ {
+				got = append(got, rawOf(<-ch))
+			}
+			vk.Quiesce()
+			type wr struct {
+				do   func()
+				want rawEv
+			}
+			j := func(m proto.Message) string { return vk.JSON(m) }
+			script := []wr{
+				{func() { col.Update("d", val(1, "d0"), resource.WithWriteTime(at(2))) }, rawEv{Typ: "UPDATE", ID: "d", Old: j(val(1, "d0")), New: j(val(1, "d0")), Time: 2000}},
+				{func() { col.Add("e", val(2, "e0"), resource.WithWriteTime(at(3))) }, rawEv{Typ: "ADD", ID: "e", Old: "-", New: j(val(2, "e0")), Time: 3000}},
+				{func() { col.Update("e", val(3, "e1"), resource.WithWriteTime(at(4))) }, rawEv{Typ: "UPDATE", ID: "e", Old: j(val(2, "e0")), New: j(val(3, "e1")), Time: 4000}},
+				{func() { col.Update("e", val(4, "e2"), resource.WithWriteTime(at(5))) }, rawEv{Typ: "UPDATE", ID: "e", Old: j(val(3, "e1")), New: j(val(4, "e2")), Time: 5000}},
+				{func() { col.Delete("a", resource.WithWriteTime(at(6))) }, rawEv{Typ: "REMOVE", ID: "a", Old: j(val(1, "a0")), New: "-", Time: 6000}},
+				{func() { col.Add("f", val(5, "f0"), resource.WithWriteTime(at(7))) }, rawEv{Typ: "ADD", ID: "f", Old: "-", New: j(val(5, "f0")), Time: 7000}},
+			}
+			tw := vk.Go(func() {
+				for _, w := range script {
+					w.do()
+				}
+			})
+			if _, ok := r.MustQuiesce("c04-paused-reader"); !ok {
+				cancel()
+				return
+			}
+			writerWaited := !tw.Done()
+			// the reader resumes
+			done := make(chan struct{})
+			var mu sync.Mutex
+			go func() {
+				defer close(done)
+				for c := range ch {
+					mu.Lock()
+					got = append(got, rawOf(c))
+					mu.Unlock()
+				}
+			}()
+			gs, ok := r.MustQuiesce("c04-paused-reader-resume")
+			if !ok {
+				cancel()
+				return
+			}
+			r.Eval(1)
+			r.Count("paused-reader-scenarios", 1)
+			r.Distinct(fmt.Sprintf("paused|%v|%d", uo, taken))
+			mode := map[bool]string{true: "updates-only", false: "seeded"}[uo]
+			key := "C04/paused-reader/" + mode
+			replay := map[string]any{"updatesOnly": uo, "seedsTakenBeforeThePause": taken}
+			desc := fmt.Sprintf("collection {a,b,c,d} stored at t=1000; a backpressured %s subscriber takes %d event(s) and pauses; one writer: Update(d, equal value, t=2000), Add(e, t=3000), Update(e, t=4000), Update(e, t=5000), Delete(a, t=6000), Add(f, t=7000); then the reader resumes", mode, taken)
+			if !tw.Done() {
+				r.Violation(key+"/writer-stuck", fmt.Sprintf("%s: the writer has not returned at the quiescent point after the reader resumed\n%s", desc, vk.DescribeGs(vk.LibraryGoroutines(gs, nil))), replay)
+				cancel()
+				return
+			}
+			if !writerWaited {
+				r.Count("paused-reader/writer-did-not-wait(observed)", 1)
+			}
+			var want []rawEv
+			if !uo {
+				for i, id := range []string{"a", "b", "c", "d"} {
+					want = append(want, rawEv{Typ: "ADD", ID: id, Old: "-", New: j(val(1, id+"0")), Time: 1000, Seed: true, Last: i == 3})
+				}
+			}
+			for _, w := range script {
+				want = append(want, w.want)
+			}
+			mu.Lock()
+			have := append([]rawEv{}, got...)
+			mu.Unlock()
+			bad := ""
+			if len(have) != len(want) {
+				bad = fmt.Sprintf("%d events received, want %d", len(have), len(want))
+			}
+			for i := 0; bad == "" && i < len(want); i++ {
+				if have[i] != want[i] {
+					bad = fmt.Sprintf("event #%d is {%s}, want {%s}", i, have[i], want[i])
+				}
+			}
+			if bad != "" {
+				r.Violation(key, fmt.Sprintf("%s: %s\nreceived:\n%s", desc, bad, renderRaw(have)), replay)
+			}
+			cancel()
+			<-done
+			vk.Quiesce()
+		}
+	}
+	r.Require("paused-reader-scenarios", 2)
 }
